@@ -1092,8 +1092,9 @@ fn scanrace_case(rng: &mut Rng, out: &mut Out, dir: &str, idx: u64) {
                 let pad = *r.pick(&[0usize, 8, 40, 300]);
                 v.resize(v.len() + pad, b'.');
                 match r.below(10) {
-                    0 => { let _ = st.delete(&k); }
+                    0 | 4 => { let _ = st.delete(&k); }
                     1 => { if let Ok(cur) = st.get(&k) { let _ = st.compare_and_swap(&k, &cur, &v); } }
+                    5 | 6 => { let _ = st.insert_bytes(&k, bytes::Bytes::from(v)); }
                     2 if ttl => { let _ = st.insert_with_ttl(&k, &v, 3600); }
                     3 if ttl => { let _ = st.update_ttl(&k, 1800); }
                     _ => { let _ = st.insert(&k, &v); }
@@ -1139,6 +1140,26 @@ fn scanrace_case(rng: &mut Rng, out: &mut Out, dir: &str, idx: u64) {
         } else {
             out.failures.push("C18\ta thread of the free-running scan race did not finish\t-".into());
             return;
+        }
+    }
+    // quiescent: the hash index, the ordered index and a full range scan name the same keys
+    {
+        let hash: Vec<Vec<u8>> = store.verif_snapshot().into_iter().map(|r| r.key).collect();
+        let tree: Vec<Vec<u8>> = store.verif_tree_keys();
+        let scan: Vec<Vec<u8>> = store.range_query(b"", &[0xFF; 16], usize::MAX).map(|r| r.into_iter().map(|x| x.0).collect()).unwrap_or_default();
+        let mut b = bad.lock().unwrap();
+        if hash != tree {
+            let only_tree: Vec<String> = tree.iter().filter(|k| !hash.contains(k)).map(|k| String::from_utf8_lossy(k).to_string()).collect();
+            let only_hash: Vec<String> = hash.iter().filter(|k| !tree.contains(k)).map(|k| String::from_utf8_lossy(k).to_string()).collect();
+            b.push(format!("at quiescence the ordered index and the hash index disagree: only in the ordered index {:?}, only in the hash index {:?}", only_tree, only_hash));
+        }
+        if !ttl {
+            if let Some(k) = scan.iter().find(|k| store.get(k).is_err()) {
+                b.push(format!("at quiescence a full range scan returns key {} which get() does not find", String::from_utf8_lossy(k)));
+            }
+            if scan.len() != store.len() {
+                b.push(format!("at quiescence a full range scan returns {} keys, len() is {}", scan.len(), store.len()));
+            }
         }
     }
     out.count("scanrace case");
